@@ -4,6 +4,7 @@ import (
 	"fmt"
 	"go/ast"
 	"go/token"
+	"go/types"
 	"sort"
 	"strings"
 
@@ -338,6 +339,7 @@ func (r *Run) CheckCases(fn *ssa.Function, key string, ct CaseTable) {
 			return
 		}
 		count[c]++
+		reach = r.WalkRefined(fn, s, entry, nil, reach)
 		rets := reachableReturns(fn, reach)
 		rows = append(rows, row{c, s, rets})
 		if len(rets) == 0 {
@@ -393,6 +395,139 @@ func (r *Run) CheckCases(fn *ssa.Function, key string, ct CaseTable) {
 		}
 		r.Check(key+"["+c+"]", bad[c] == "", where, d)
 	}
+}
+
+// WalkRefined sharpens a σ-walk for conditions that were held in a boolean temporary: such a
+// condition reaches its test as a φ of a block the walk has already left (`b := x && y || z;
+// if b && w`), where the plain walk (which only knows the edge through which the current block
+// was entered) cannot tell which of the φ's inputs arrived. Under σ an execution takes only
+// edges of the coarse walk, so a φ whose block is strictly dominated by the start block is
+// evaluated over those incoming edges only; the walk is repeated with that evaluation until
+// the edge set no longer shrinks. Each round over-approximates the executions consistent with
+// σ (induction over the rounds), so instructions outside the result cannot execute under σ.
+func (r *Run) WalkRefined(fn *ssa.Function, s Sigma, from *ssa.BasicBlock, stop map[*ssa.BasicBlock]bool, coarse *Reach) *Reach {
+	if from == nil {
+		from = fn.Blocks[0]
+	}
+	if coarse == nil {
+		coarse = r.D.Walk(fn, s, from, stop)
+	}
+	for round := 0; round < 8; round++ {
+		next := r.walkUnder(fn, s, from, stop, coarse)
+		r.Valuations++
+		if len(next.Edges) >= len(coarse.Edges) && len(next.Blocks) >= len(coarse.Blocks) {
+			return next
+		}
+		coarse = next
+	}
+	return coarse
+}
+
+func (r *Run) walkUnder(fn *ssa.Function, s Sigma, from *ssa.BasicBlock, stop map[*ssa.BasicBlock]bool, prev *Reach) *Reach {
+	type st struct {
+		b    *ssa.BasicBlock
+		pred int
+	}
+	seen := map[st]bool{}
+	out := &Reach{Blocks: map[*ssa.BasicBlock]bool{}, Edges: map[[2]int]bool{}}
+	work := []st{{from, -1}}
+	for len(work) > 0 {
+		c := work[len(work)-1]
+		work = work[:len(work)-1]
+		if seen[c] || stop[c.b] && c.b != from {
+			continue
+		}
+		seen[c] = true
+		out.Blocks[c.b] = true
+		succs := c.b.Succs
+		if len(c.b.Instrs) > 0 {
+			if ifi, ok := c.b.Instrs[len(c.b.Instrs)-1].(*ssa.If); ok {
+				switch r.evalUnder(ifi.Cond, s, c.b, c.pred, from, prev, 0) {
+				case T:
+					succs = c.b.Succs[:1]
+				case F:
+					succs = c.b.Succs[1:2]
+				}
+			}
+		}
+		for _, sb := range succs {
+			pi := -1
+			for i, p := range sb.Preds {
+				if p == c.b {
+					pi = i
+					break
+				}
+			}
+			if !(stop[sb] && sb != from) {
+				out.Edges[[2]int{c.b.Index, sb.Index}] = true
+			}
+			work = append(work, st{sb, pi})
+		}
+	}
+	return out
+}
+
+// evalUnder is Describer.eval with φ-nodes of already-left blocks restricted to the incoming
+// edges of prev (see WalkRefined).
+func (r *Run) evalUnder(v ssa.Value, s Sigma, blk *ssa.BasicBlock, pred int, from *ssa.BasicBlock, prev *Reach, depth int) Tri {
+	if depth > 8 {
+		return U
+	}
+	if b, ok := isBoolConst(v); ok {
+		if b {
+			return T
+		}
+		return F
+	}
+	switch v := v.(type) {
+	case *ssa.UnOp:
+		if v.Op == token.NOT {
+			return r.evalUnder(v.X, s, blk, pred, from, prev, depth+1).Not()
+		}
+	case *ssa.Phi:
+		pb := v.Block()
+		if pb == blk && pred >= 0 && pred < len(v.Edges) {
+			return r.evalUnder(v.Edges[pred], s, pb.Preds[pred], -1, from, prev, depth+1)
+		}
+		restrict := prev != nil && pb != from && from.Dominates(pb) && prev.Blocks[pb]
+		res, n := U, 0
+		for i, e := range v.Edges {
+			if restrict && !prev.Edges[[2]int{pb.Preds[i].Index, pb.Index}] {
+				continue
+			}
+			t := r.evalUnder(e, s, pb.Preds[i], -1, from, prev, depth+1)
+			if t == U {
+				return U
+			}
+			if n > 0 && t != res {
+				return U
+			}
+			res = t
+			n++
+		}
+		return res
+	case *ssa.BinOp:
+		if v.Op == token.EQL || v.Op == token.NEQ {
+			if bt, ok := v.X.Type().Underlying().(*types.Basic); ok && bt.Info()&types.IsBoolean != 0 {
+				a := r.evalUnder(v.X, s, blk, pred, from, prev, depth+1)
+				b := r.evalUnder(v.Y, s, blk, pred, from, prev, depth+1)
+				if a != U && b != U {
+					if (a == b) == (v.Op == token.EQL) {
+						return T
+					}
+					return F
+				}
+			}
+		}
+	}
+	ci := r.D.Classify(v)
+	if val, ok := s[ci.Key]; ok {
+		if ci.True[val] {
+			return T
+		}
+		return F
+	}
+	return U
 }
 
 // GuardAtom: from block `from` (nil = entry), no marker may execute when the atom has a
@@ -494,13 +629,60 @@ func (r *Run) storesAt(fn *ssa.Function, addr string) []*ssa.Store {
 	return out
 }
 
+// ExpectPointee: what a pointer-typed field (named by the origin term `target` of its content,
+// e.g. new:T#*.F for the field F of the struct built in new:T) points to is written only with
+// values matching valGlob, at least min times — independent of how the pointee comes about:
+// written through the pointer loaded back from the field (`x.F = &V{}; *x.F = v`), or built in
+// a local first whose address is then put into the field (`t := v; x.F = &t`).
+// Every pointer put into the field must be nil or a local allocation, else the rule is undecided.
+func (r *Run) ExpectPointee(fn *ssa.Function, key, target, valGlob string, min int) {
+	var content []*ssa.Store
+	seen := map[*ssa.Store]bool{}
+	add := func(st *ssa.Store) {
+		if !seen[st] {
+			seen[st] = true
+			content = append(content, st)
+		}
+	}
+	// (a) stores through the pointer held in the field
+	for _, st := range r.StoresTo(fn, target) {
+		add(st)
+	}
+	// (b) stores into the allocations whose address is put into the field
+	for _, ps := range r.StoresTo(fn, "&("+target+")") {
+		if isNilConst(ps.Val) {
+			continue
+		}
+		a, ok := ps.Val.(*ssa.Alloc)
+		if !ok {
+			r.Fail(key, r.Where(ps), fmt.Sprintf("undecided: %s <- %s is not the address of a local value", r.D.D(ps.Addr), r.D.D(ps.Val)))
+			return
+		}
+		eachInstr(fn, func(in ssa.Instruction) {
+			if st, ok := in.(*ssa.Store); ok && st != ps && baseAlloc(st.Addr) == a {
+				if _, isLoad := st.Addr.(*ssa.UnOp); !isLoad {
+					add(st)
+				}
+			}
+		})
+	}
+	if len(content) < min {
+		r.Fail(key, r.FnPos(fn), fmt.Sprintf("expected >= %d stores to %s in %s, found %d", min, target, FuncName(fn), len(content)))
+		return
+	}
+	for _, st := range content {
+		got := r.D.D(st.Val)
+		r.Check(key, anyGlob(valGlob, got), r.Where(st), fmt.Sprintf("%s <- %s (expected %s)", r.D.D(st.Addr), got, valGlob))
+	}
+}
+
 // allocOf returns the name of the local allocation that receives (whole-value store) a value matching valGlob.
 func (r *Run) allocOf(fn *ssa.Function, valGlob string) string {
 	name := ""
 	eachInstr(fn, func(in ssa.Instruction) {
 		if st, ok := in.(*ssa.Store); ok {
 			if a, ok := st.Addr.(*ssa.Alloc); ok && glob(valGlob, r.D.D(st.Val)) {
-				name = r.D.allocName(a)
+				name = selBase(r.D.D(a)) // a local that only holds a copy reads as the value itself
 			}
 		}
 	})
